@@ -98,6 +98,23 @@ def run_config(conf, names, seed, is_quick, findings, counters, records):
     contextual_any = any(base_name(n) not in CONTEXT_FREE for n in names)
     bandit_seed = 100 + seed
     bandits = [(name, make(name, bandit_seed + i)) for i, name in enumerate(names)]
+    if seed % 3 == 1:
+        # bandits that were USED before they are given to the Simulator (trained and queried on a warm-up sample): the
+        # simulation continues from the state the bandit is in, generator position included
+        used = []
+        for i, (name, mab) in enumerate(bandits):
+            try:
+                if base_name(name) in CONTEXT_FREE:
+                    mab.fit(d[:5], r[:5])
+                    mab.predict()
+                else:
+                    mab.fit(d[:5], r[:5], c[:5])
+                    mab.predict(c[:3])
+                counters["used_bandits"] = counters.get("used_bandits", 0) + 1
+            except Exception:  # noqa: the warm-up sample does not suit this bandit (too few rows for k): keep it fresh
+                mab = make(name, bandit_seed + i)
+            used.append((name, mab))
+        bandits = used
     refs = {name: copy.deepcopy(mab) for name, mab in bandits}
     ts = Fraction(*conf["ts"])
     sim_seed = 7 + seed
@@ -222,6 +239,20 @@ def record(sim, names, labels, rewards, conf, test_idx, is_quick):
             if conf["batch"] > 0:
                 t = t["total"]
             evals[st] = {INV[a]: stats_rec(t[a]) for a in t}
+        batches = []
+        if conf["batch"] > 0:
+            n_batches = -(-len(test_idx) // conf["batch"])
+            for i in range(n_batches):
+                per = {}
+                for st, table in (("min", sim.bandit_to_arm_to_stats_min), ("mean", sim.bandit_to_arm_to_stats_avg),
+                                  ("max", sim.bandit_to_arm_to_stats_max)):
+                    t = table[name].get(i)
+                    if t is None:
+                        per = None
+                        break
+                    per[st] = {INV[a]: stats_rec(t[a]) for a in t}
+                if per is not None:
+                    batches.append(per)
         nb = []
         if base_name(name) in REPLACED and not is_quick:
             for row in sim.bandit_to_arm_to_stats_neighborhoods[name]:
@@ -231,7 +262,7 @@ def record(sim, names, labels, rewards, conf, test_idx, is_quick):
                     entry[a] = [1, rat(st["min"]), rat(st["mean"]), rat(st["max"])] if st else [0]
                 nb.append(entry)
         bandits.append({"name": name, "predictions": [INV[p.item() if hasattr(p, "item") else p] for p in sim.bandit_to_predictions[name]],
-                        "evals": evals, "nb": nb})
+                        "evals": evals, "nb": nb, "batches": batches})
     return {"arms": list(ARMS), "data": [{"a": a, "r": int(x)} for a, x in zip(labels, rewards)], "ts": list(conf["ts"]),
             "exact": "script" in conf,
             "ordered": bool(conf["ordered"]), "batch": conf["batch"], "test_indices": test_idx,
